@@ -117,7 +117,7 @@ type XExec struct {
 	// NotReadSection: Lock sites that ReadSection admitted but whose section wrote an announced
 	// variable, performed another synchronisation operation, or contained a preemption point
 	NotReadSection map[string]bool
-	Final       [16]byte       // fingerprint of the final state
+	Final          [16]byte // fingerprint of the final state
 }
 
 type xobjKey struct {
@@ -698,16 +698,16 @@ type XExplorer struct {
 	// AfterExec is called after every execution; returning true stops the exploration (Stopped).
 	AfterExec func(x *XExec, dev []XChoice) bool
 
-	Execs       int
-	Steps       int64
-	Expanded    int64 // distinct decision nodes expanded
-	Pruned      int64 // executions cut short at an already expanded node
-	MaxPreempt  int
-	BoundDone   int // largest bound whose schedules were all executed (-1: none)
-	Truncated   bool
-	Stopped     bool
-	Infra       string // scheduler trouble (stuck / diverged): not a verdict
-	seen        map[[16]byte]uint8
+	Execs      int
+	Steps      int64
+	Expanded   int64 // distinct decision nodes expanded
+	Pruned     int64 // executions cut short at an already expanded node
+	MaxPreempt int
+	BoundDone  int // largest bound whose schedules were all executed (-1: none)
+	Truncated  bool
+	Stopped    bool
+	Infra      string // scheduler trouble (stuck / diverged): not a verdict
+	seen       map[[16]byte]uint8
 }
 
 type xitem struct {
